@@ -22,6 +22,18 @@ TCff ==
   /\ Ev.total_read = Ev.total
   /\ Ev.count_same /\ Ev.glyph_replaced /\ Ev.others_unchanged /\ Ev.ascending /\ Ev.prefix_unchanged /\ Ev.tables_unchanged
   /\ Ev.applied_marked
+\* glyf with short loca / gvar with short offsets: offsets stored divided by two reach 131070 bytes. Up to there a well-formed
+\* patch applies; beyond, gvar widens to long offsets, and glyf (whose offset format lives in head) is either refused with the
+\* caller's bookkeeping untouched or written with long offsets - never written short.
+ShortReach == 131070
+TSizes ==
+  /\ IsEvent("sizes")
+  /\ Ev.uris >= 1
+  /\ Ev.total <= ShortReach => Ev.ok
+  /\ Ev.kind = "gvar" => Ev.ok
+  /\ Ev.ok => /\ Ev.data_ok /\ Ev.marked
+              /\ Ev.total > ShortReach => Ev.long
+  /\ ~Ev.ok => Ev.status_untouched
 TInit == l = 1
-TraceSpec == TInit /\ [][TCff]_l
+TraceSpec == TInit /\ [][TCff \/ TSizes]_l
 =============================================================================
